@@ -106,7 +106,6 @@ structure St where
   tree : Tree
   binds : Array Binding := #[]
   owned : Array Nat := #[]          -- references the application holds, per window
-  pending : Array Bool := #[]       -- a restack request was made since the last flush
   pressSeen : Bool := false         -- `mouse_last_*` have been written (they are uninitialised before)
   log : List LogItem := []          -- newest first
 deriving Repr, Inhabited
@@ -196,13 +195,20 @@ def flush (t : Tree) : Res Tree :=
 
 /-! ### the application's actions -/
 
-/-- `tickit_window_unref` with the DESTROY event logged. -/
+/-- The windows below and including `win`, parents before children, front-most child first: the order in which
+    `tickit_window_destroy` runs the DESTROY handlers when it takes children along. -/
+def preorder (t : Tree) : Nat → Id → List Id
+  | 0, _ => []
+  | f + 1, win =>
+    match t.wins[win]? with
+    | none => [win]
+    | some w => win :: w.children.flatMap (preorder t f)
+
+/-- `tickit_window_unref` with the DESTROY events logged. -/
 def unrefLogged (st : St) (win : Id) : Res St := do
   let t ← WinTree.unref (fun t _ => pure t) (destroyFuel st.tree) st.tree win
-  let st := { st with tree := t }
-  match t.wins[win]? with
-  | some w => pure (if w.freed then st.say (.destroyed win) else st)
-  | none => pure st
+  let gone := (preorder st.tree (treeFuel st.tree) win).filter fun i => isAlive st.tree i && !isAlive t i
+  pure (gone.foldl (fun st i => st.say (.destroyed i)) { st with tree := t })
 
 def refWin (st : St) (win : Id) : Res St := do
   let t ← WinTree.ref st.tree win
@@ -217,13 +223,8 @@ def allowed (st : St) (a : Action) : Bool :=
     if w.freed then false else
     match a.act with
     | .unref => decide (0 < st.owned.getD a.win 0) && a.win != 0 && w.children.isEmpty
-                  && (w.parent.isNone || attached t (treeFuel t) a.win)
-    | .close => !(st.pending.getD a.win false)
     | .raise | .raiseFront | .lower | .lowerBack | .focus => attached t (treeFuel t) a.win
     | _ => true
-
-def markPending (st : St) (win : Id) : St :=
-  if win = 0 then st else { st with pending := st.pending.setIfInBounds win true }
 
 def doAction (st : St) (a : Action) : Res St :=
   if !allowed st a then pure (st.say (.refused a)) else
@@ -235,10 +236,10 @@ def doAction (st : St) (a : Action) : Res St :=
   | .keep => do let t ← WinTree.ref t a.win; pure { st with tree := t, owned := st.owned.setIfInBounds a.win (st.owned.getD a.win 0 + 1) }
   | .hide => do let t ← WinTree.hide t f a.win; pure { st with tree := t }
   | .unhide => do let t ← WinTree.show t f a.win; pure { st with tree := t }
-  | .raise => do let t ← requestHierarchyChange t f .raise a.win; pure (markPending { st with tree := t } a.win)
-  | .raiseFront => do let t ← requestHierarchyChange t f .raiseFront a.win; pure (markPending { st with tree := t } a.win)
-  | .lower => do let t ← requestHierarchyChange t f .lower a.win; pure (markPending { st with tree := t } a.win)
-  | .lowerBack => do let t ← requestHierarchyChange t f .lowerBack a.win; pure (markPending { st with tree := t } a.win)
+  | .raise => do let t ← requestHierarchyChange t f .raise a.win; pure { st with tree := t }
+  | .raiseFront => do let t ← requestHierarchyChange t f .raiseFront a.win; pure { st with tree := t }
+  | .lower => do let t ← requestHierarchyChange t f .lower a.win; pure { st with tree := t }
+  | .lowerBack => do let t ← requestHierarchyChange t f .lowerBack a.win; pure { st with tree := t }
   | .focus => do let t ← takeFocus t a.win; pure { st with tree := t }
   | .stealOn => do let t ← modify t a.win (fun w => { w with stealInput := true }); pure { st with tree := t }
   | .stealOff => do let t ← modify t a.win (fun w => { w with stealInput := false }); pure { st with tree := t }
@@ -438,7 +439,7 @@ def emitMouse (st : St) (ev : Ev) : Out St := do
 
 /-- A fresh root window; nothing has been pressed yet. -/
 def newSt0 (lines cols : Int) : St :=
-  { tree := newRoot lines cols, owned := #[1], pending := #[false] }
+  { tree := newRoot lines cols, owned := #[1] }
 
 /-- The engine's `new`: a fresh root window followed by one PRESS of button 0 at (-1,-1) while nothing is bound
     (it reaches no handler; it initialises the press memory). -/
@@ -450,7 +451,7 @@ def newSt (lines cols : Int) : St :=
 /-- `tickit_window_new` by the application (it keeps the reference). -/
 def newWin (st : St) (parent : Id) (rect : Rect) (rootParent hidden lowest steal : Bool) : Res (St × Id) := do
   let (t, id) ← newWindow st.tree (treeFuel st.tree) parent rect rootParent hidden lowest steal
-  pure ({ st with tree := t, owned := st.owned.push 1, pending := st.pending.push false }, id)
+  pure ({ st with tree := t, owned := st.owned.push 1 }, id)
 
 def addBinding (st : St) (win : Id) (kind : Kind) (entries : List Entry) : St × Nat :=
   let idx := (bindingsOf st kind win).length
@@ -458,7 +459,7 @@ def addBinding (st : St) (win : Id) (kind : Kind) (entries : List Entry) : St ×
 
 def flushSt (st : St) : Res St := do
   let t ← flush st.tree
-  pure { st with tree := t, pending := st.pending.map (fun _ => false) }
+  pure { st with tree := t }
 
 /-! ### specification vocabulary: the reference offer orders of the property text -/
 
